@@ -443,9 +443,12 @@ def run(ctx, rep):
             o.key = o.key.replace("/G6/", "/A4/")
             rep.counts["A4"] = rep.counts.get("A4", 0) + 1
     rep.counts.pop("G6", None)
-    # the table in force cannot change behind the memo: no alias of the live table / presets is handed out
-    for nm in ("get_semantic_constraints", "get_preset_constraints"):
+    # the table in force cannot change behind the memo: no alias of the live table / presets is handed out,
+    # and what the setter binds is a module-owned copy
+    for nm in ("get_preset_constraints",):
         check_fresh_return(ctx, eff, rep, ctx.api(nm), "A4", nm)
+    from rules.shared import check_table_owned
+    check_table_owned(ctx, rep, "A4")
     # ---- A5
     check_fresh_return(ctx, eff, rep, getter, "A5", "alphabet")
     rep.floor("A1", 2)
